@@ -1,10 +1,15 @@
-/- line-protocol driver for C16: `drv_c16 seq|opfn|fold|run` (see Driver/AtomicsCmd.lean).
+/- line-protocol driver for C16: `drv_c16 seq|opfn|fold|run` (see Driver/AtomicsCmd.lean) and
+   `drv_c16 qual|castype|qualdump|qualdumps|casnodes` (see Driver/C16QualCmd.lean).
    Core Lean only (nothing imported here may import Mathlib, or the executable will not link). -/
 import ChibiVerif.Driver.AtomicsCmd
+import ChibiVerif.Driver.C16QualCmd
 
 def main (args : List String) : IO UInt32 := do
   match args with
-  | sub :: _ => ChibiVerif.Driver.atomicsMain sub
+  | sub :: rest =>
+    if sub == "qual" || sub == "castype" || sub == "qualdump" || sub == "qualdumps" || sub == "casnodes" then
+      ChibiVerif.Driver.C16Q.main sub rest
+    else ChibiVerif.Driver.atomicsMain sub
   | _ =>
-    IO.eprintln "usage: drv_c16 seq|opfn|fold|run"
+    IO.eprintln "usage: drv_c16 seq|opfn|fold|run|qual|castype|qualdump|casnodes"
     return 2
